@@ -147,7 +147,7 @@ theorem modes_fuel_loadDict (cfg : Cfg) (k v k' v' : Val → Outcome Val) (d : V
       fun _ => modes_fuelLe_refl _
   · exact Or.inr rfl
 
-theorem modes_fuel_firstNonErr {os os' : List (Outcome Val)} (h : All₂ FuelLe os os') :
+theorem modes_fuel_firstNonErr {os os' : List (Outcome Val)} (h : Pointwise₂ FuelLe os os') :
     firstNonErr os = some .diverge ∨
       (firstNonErr os' = firstNonErr os ∧ prefixErrs os' = prefixErrs os) := by
   induction h with
@@ -165,7 +165,7 @@ theorem modes_fuel_firstNonErr {os os' : List (Outcome Val)} (h : All₂ FuelLe 
       | escape e => right; simp [firstNonErr, prefixErrs]
       | diverge => left; simp [firstNonErr]
 
-theorem modes_fuel_unionAll {os os' : List (Outcome Val)} (h : All₂ FuelLe os os') (errs : List LErr)
+theorem modes_fuel_unionAll {os os' : List (Outcome Val)} (h : Pointwise₂ FuelLe os os') (errs : List LErr)
     (u : Bool) : FuelLe (unionAll os errs u) (unionAll os' errs u) := by
   induction h generalizing errs u with
   | nil => exact Or.inr rfl
@@ -183,12 +183,12 @@ theorem modes_fuel_unionAll {os os' : List (Outcome Val)} (h : All₂ FuelLe os 
       | diverge => left; simp [unionAll]
 
 theorem modes_all₂_map_ty {R : Outcome Val → Outcome Val → Prop} (F G : Ty → Outcome Val)
-    (cases : List Ty) (h : ∀ c ∈ cases, R (F c) (G c)) : All₂ R (cases.map F) (cases.map G) := by
+    (cases : List Ty) (h : ∀ c ∈ cases, R (F c) (G c)) : Pointwise₂ R (cases.map F) (cases.map G) := by
   induction cases with
-  | nil => exact All₂.nil
-  | cons c cs ih => exact All₂.cons (h c (by simp)) (ih fun c' hc' => h c' (by simp [hc']))
+  | nil => exact Pointwise₂.nil
+  | cons c cs ih => exact Pointwise₂.cons (h c (by simp)) (ih fun c' hc' => h c' (by simp [hc']))
 
-theorem modes_fuel_generalUnion (t : DebugTrail) {os os' : List (Outcome Val)} (h : All₂ FuelLe os os') :
+theorem modes_fuel_generalUnion (t : DebugTrail) {os os' : List (Outcome Val)} (h : Pointwise₂ FuelLe os os') :
     FuelLe (generalUnion t os) (generalUnion t os') := by
   cases t with
   | disable =>
